@@ -79,6 +79,15 @@ func (e *Enc) execLockOp(op string, c *ssa.CallCommon, in ssa.Instruction) bool 
 		e.hset(e.cur, "$held", heldSort, tStore(H, lref, v))
 		if known && decl != nil {
 			e.acquireHavoc(obj, st, decl)
+			// rely: what other threads may have done since this thread last released the lock
+			if rel, ok := e.lastRelease[decl]; ok && len(decl.Rely) > 0 {
+				env := e.lockEnv(obj, st, e.cur, rel)
+				for _, cl := range decl.Rely {
+					e.assume(env.evalBool(cl.Expr))
+				}
+				e.used["rely/guarantee on "+st.String()+"."+decl.Field+": stable under other threads' write sections (each proved to satisfy it)"] = true
+			}
+			e.lastAcquire[decl] = e.cur.clone()
 		}
 	case "unlock", "runlock":
 		want := "2"
@@ -98,6 +107,18 @@ func (e *Enc) execLockOp(op string, c *ssa.CallCommon, in ssa.Instruction) bool 
 				o := e.oblige("lockinv", fmt.Sprintf("lockinv:%s.%d@%s", decl.Field, i, site), env.evalBool(cl.Expr), in.Pos(), cl.Src)
 				o.setLabel(cl.Label)
 			}
+		}
+		if known && decl != nil {
+			if op == "unlock" && len(decl.Rely) > 0 {
+				if acq, ok := e.lastAcquire[decl]; ok {
+					env := e.lockEnv(obj, st, e.cur, acq)
+					for i, cl := range decl.Rely {
+						o := e.oblige("guar", fmt.Sprintf("guar:%s.%d@%s", decl.Field, i, site), env.evalBool(cl.Expr), in.Pos(), cl.Src)
+						o.setLabel(cl.Label)
+					}
+				}
+			}
+			e.lastRelease[decl] = e.cur.clone()
 		}
 		e.hset(e.cur, "$held", heldSort, tStore(H, lref, "0"))
 	}
@@ -267,6 +288,10 @@ func (e *Enc) locksAtReturn(in *ssa.Return) {
 	if _, used := e.heapSort["$held"]; !used {
 		return
 	}
+	if e.fc != nil && e.fc.Opts["locks"] == "transfer" {
+		e.used["lock hand-off: "+e.fn.String()+" returns holding a lock that a goroutine it spawned releases"] = true
+		return
+	}
 	cur := e.heldArr(e.cur)
 	if cur == smtName("$held@0") {
 		return
@@ -277,4 +302,14 @@ func (e *Enc) locksAtReturn(in *ssa.Return) {
 func isLockKey(key string) (string, bool) {
 	op, ok := lockOps[strings.TrimSpace(key)]
 	return op, ok
+}
+
+func (e *Enc) lockEnv(obj Term, st types.Type, cur, old *State) *specEnv {
+	env := e.newSpecEnv(cur, old)
+	env.noLocals = true
+	env.vars["self"] = SV{T: obj, Sort: "Int", GT: types.NewPointer(st)}
+	if n, ok := st.(*types.Named); ok && n.Obj().Pkg() != nil {
+		env.pkg = n.Obj().Pkg()
+	}
+	return env
 }
